@@ -13,7 +13,7 @@ def build(tier, only, chk):
                             meta={'format': b.fmt, 'buffer_bytes': b.spec_len, 'reads': n,
                                   'domain': 'all 2^%d buffers' % (8 * b.spec_len)}))
     if not only or 'descriptor' in (only or ''):
-        offs = range(32) if tier == 'thorough' else []
+        offs = range(32) if tier == 'thorough' else [0, 3, 16, 29, 31]
         for off in offs:
             jobs.append(Job('c01.descriptor.off%02d' % off, G.descriptor_sweep('get', off),
                             ['src/avtp/Utils.c'], unwind=70, unwindset=WALKER, timeout=1500,
@@ -27,7 +27,7 @@ def run(tier, only=None):
     jobs = build(tier, only, chk)
     chk.run(jobs)
     chk.assumptions = STD_ASSUME + [
-        'descriptor sweep (thorough tier) bounded to start quadlet 0..3; the walker arithmetic depends on the quadlet only through 4*q']
+        'descriptor sweep (quick: bit offsets 0, 3, 16, 29, 31; thorough: every offset 0..31) bounded to start quadlet 0..3; the walker arithmetic depends on the quadlet only through 4*q']
     return chk.finish(
         rule='one query per format and byte order; each obligation is one (field, access path) compared with the '
              'byte-level oracle over ALL buffer contents; distinct = distinct oracle assertions',
